@@ -139,12 +139,22 @@ func (w *W) encPut(m string, c *ast.CallExpr, at ast.Node) {
 		}
 		k := defaultKind()
 		k.ELen, k.ENull = pa.elen, pa.enull
+		needLast := false
+		if w.nullNext != nil && w.nullNext.key() == v.key() && pa.enull == "ENone" {
+			k.ENull = w.nullKind
+			needLast = w.nullLast
+			w.nullNext, w.nullLast = nil, false
+		}
 		st, _ := v.typ.Underlying().(*types.Slice)
 		if st == nil {
 			w.fail(at, "%s of a non-slice", m)
 		}
-		w.emit(&Node{Kind: "arr", K: k, Place: v, Pos: pos, Zero: w.g.zeroElem(st.Elem()),
-			Elem: []*Node{{Kind: "prim", P: pa.elem, Conv: "CId", Path: nil, Pos: pos}}})
+		n := &Node{Kind: "arr", K: k, Place: v, Pos: pos, Zero: w.g.zeroElem(st.Elem()),
+			Elem: []*Node{{Kind: "prim", P: pa.elem, Conv: "CId", Path: nil, Pos: pos}}}
+		w.emit(n)
+		if needLast {
+			w.earlyArr = append(w.earlyArr, &earlyChk{arr: &ArrCtx{node: n}, level: w.out, ret: w.nullRet})
+		}
 		return
 	}
 	switch m {
@@ -344,10 +354,11 @@ func (w *W) decGet(m string, c *ast.CallExpr, lhs []ast.Expr, at ast.Node) {
 			return
 		}
 	}
-	pl, ok := w.eval(lhs[0]).(*Place)
+	pl, ok := w.evalL(lhs[0]).(*Place)
 	if !ok {
 		w.fail(at, "decoded value stored in an unsupported target")
 	}
+	delete(w.known, pl.key())
 	n.Place, n.Bound = pl, true
 }
 
@@ -396,6 +407,7 @@ func (w *W) walkMethod(fd *ast.FuncDecl, recv *Place, args []SVal, at ast.Node) 
 	}
 	w.recvType = namedName(recv.typ)
 	w.visited[w.recvType+"."+fd.Name.Name] = true
+	w.noteCountLike(fd)
 	i := 0
 	for _, f := range fd.Type.Params.List {
 		for _, nm := range f.Names {
@@ -444,4 +456,34 @@ func (w *W) walkMethod(fd *ast.FuncDecl, recv *Place, args []SVal, at ast.Node) 
 			}
 		}
 	}
+}
+
+// variables that are used as the size of a make or as the bound of a counted loop
+func (w *W) noteCountLike(fd *ast.FuncDecl) {
+	if w.countLike == nil {
+		w.countLike = map[types.Object]bool{}
+	}
+	mark := func(e ast.Expr) {
+		ast.Inspect(e, func(m ast.Node) bool {
+			if id, ok := m.(*ast.Ident); ok {
+				if o := w.objOf(id); o != nil {
+					w.countLike[o] = true
+				}
+			}
+			return true
+		})
+	}
+	ast.Inspect(fd.Body, func(n ast.Node) bool {
+		switch x := n.(type) {
+		case *ast.CallExpr:
+			if id, ok := x.Fun.(*ast.Ident); ok && id.Name == "make" && len(x.Args) >= 2 {
+				mark(x.Args[len(x.Args)-1])
+			}
+		case *ast.ForStmt:
+			if b, ok := x.Cond.(*ast.BinaryExpr); ok && b.Op == token.LSS {
+				mark(b.Y)
+			}
+		}
+		return true
+	})
 }
